@@ -395,6 +395,11 @@ def gen_scalar(rng, depth, T):
     if depth == 0:
         return leaf()
     op = rng.choice(["add", "mul", "mul", "div", "sin", "exp", "pow", "cond", "sqrt", "leaf", "isum", "var", "abs"])
+    # quotients and square roots only of leaves: their definedness conditions (denominator, sqrt
+    # value non-zero) then stay simple enough for `field`; the results still flow through every rule
+    # applied above them.  Deep quotient/sqrt operands are covered by the enumerated rule cases.
+    if op in ("div", "sqrt") and depth != 1:
+        op = {"div": "mul", "sqrt": "sin"}[op]
     a = gen_scalar(rng, depth - 1, T)
     if op == "leaf":
         return a
